@@ -33,5 +33,10 @@ func (c *ComparisonPlanner) Process(ctx *shared.PlannerContext) (sql.ISelect, er
 		fn = sql.Neq
 	}
 
-	return main.AndHaving(fn(sql.NewRawObject("value"), sql.NewFloatVal(c.Param))), nil
+	cond := fn(sql.NewRawObject("value"), sql.NewFloatVal(c.Param))
+	if len(main.GetGroupBy()) == 0 {
+		// the select of TopKPlanner does not aggregate: HAVING is not allowed there, WHERE filters its rows
+		return main.AndWhere(cond), nil
+	}
+	return main.AndHaving(cond), nil
 }
